@@ -111,8 +111,9 @@ def cases(seed, tier):
             out.append({'mode': 'select', 'config': {'candidates': forms},
                         'data': {'kind': str(rng.choice(uni.DATA_KINDS)), 'n': int(rng.choice([30, 300, 2000])),
                                  'seed': int(rng.integers(1 << 31))}})
+        # selection sample smaller than, equal to and larger than the data
         out.append({'mode': 'select', 'config': {'selection_sample_size': 50},
-                    'data': {'kind': str(rng.choice(uni.DATA_KINDS)), 'n': 2000, 'seed': int(rng.integers(1 << 31))}})
+                    'data': {'kind': str(rng.choice(uni.DATA_KINDS)), 'n': [2000, 50, 30, 51][r % 4], 'seed': int(rng.integers(1 << 31))}})
     for r in range(12 if tier == 'quick' else 700):
         for form in ('default', 'class', 'name', 'instance', 'dict', 'failing'):
             out.append({'mode': 'table', 'form': form, 'd': int(rng.integers(2, 6)), 'n': int(rng.choice([60, 400])),
